@@ -106,7 +106,7 @@ pub fn c09_def() -> PropDef {
 pub fn c11_def() -> PropDef {
     PropDef {
         id: "C11",
-        generate: |vs, idx, _| Record::Sim(crate::c11::generate(run_seed(vs, "C11", idx))),
+        generate: |vs, idx, tier| Record::Sim(crate::c11::generate(run_seed(vs, "C11", idx), tier == crate::driver::Tier::Thorough)),
         check: |rec, c| match rec {
             Record::Sim(s) => crate::c11::check(s, c),
             _ => Verdict::harness("wrong record kind".into()),
@@ -132,6 +132,7 @@ pub fn c11_def() -> PropDef {
             "hit.user_function_error_outcome",
             "hit.evaluation_after_earlier_evaluation",
             "hit.abandoned_then_retried",
+            "hit.evaluation_with_256_or_more_distinct_cached_calls",
             "fault.fn_error",
             "fault.cancel_at_point",
             "fault.retry_after_abandon",
